@@ -83,7 +83,7 @@ pub fn eval(c: &Case) -> (Vec<(String, String)>, String) {
         }
     }
     // singularity and constraints are those of the wrapped robot
-    let bare = OPWKinematics::new_with_constraints(*p, Constraints::new(st.limits.unwrap().from, st.limits.unwrap().to, st.limits.unwrap().weight));
+    let bare = OPWKinematics::new_with_constraints(*p, st.limits.unwrap().build());
     if k.kinematic_singularity(q).is_some() != bare.kinematic_singularity(q).is_some() {
         fails.push((format!("C09/singularity-delegation/{shape}"), "kinematic_singularity differs from the wrapped robot".into()));
     }
@@ -273,6 +273,43 @@ pub fn run(ctx: &Ctx) -> Report {
             r.fail(k, idx, c.json(), d);
         }
     });
+    // --- threshold sweep: wrappers whose isometry is almost, but not exactly, a pure translation / the identity
+    let lad = crate::common::ladder::ladder(&["tool.rs", "frame.rs"]);
+    let lad: Vec<f64> = if thorough { lad } else { lad.into_iter().step_by(2).collect() };
+    let tsizes = [lad.len(), 3, 4, 2, 2];
+    let tn = par::product(&tsizes);
+    let generic = isos[4].0;
+    let trep = par::run(tn, |idx, r| {
+        let mut ix = [0usize; 5];
+        par::decode(idx, &tsizes, &mut ix);
+        let d = lad[ix[0]];
+        let s3 = 1.0 / 3f64.sqrt();
+        let tiny = match ix[2] {
+            0 => Iso::new(rotx(d), [0.1, -0.05, 0.2]),
+            1 => Iso::new(rot_axis([s3, s3, s3], -d), [0.0, 0.0, 0.0]),
+            2 => Iso::new(rotz(d), [0.0, 0.0, 0.15]),
+            _ => Iso::new(mmul(&roty(0.3), &rotz(-0.2)), [d, -d, 0.0]),
+        };
+        let w = match ix[1] {
+            0 => Wrap::Tool(tiny),
+            1 => Wrap::Base(tiny),
+            _ => Wrap::Frame(tiny),
+        };
+        let p = &robots[ix[4] * (robots.len() - 1)];
+        let q = user_joints(p, &thetas[0]);
+        let mut desc = StackDesc::bare(*p).limited(Limits { from: [-1.5, -3.2, -3.2, -1.0, -3.2, -5.9], to: [5.0, 3.2, 3.2, 5.5, 3.2, 0.6], weight: 0.0 });
+        desc.wraps = if ix[3] == 0 { vec![w] } else { vec![Wrap::Base(generic), w, Wrap::Tool(isos[2].0)] };
+        let c = Case { stack: desc, q };
+        let (fails, sig) = eval(&c);
+        r.states += 1;
+        r.transitions += 7;
+        r.sig(format!("almost-identity:{sig}"));
+        for (k, dd) in fails {
+            r.fail(format!("{k}/almost-identity"), n + 1_000_000 + idx, c.json(), dd);
+        }
+    });
+    rep.merge(trep);
+    rep.set("threshold_sweep", json!({"ladder_values": lad.len(), "wrappers": 3, "tiny_isometries": ["rot x", "rot (1,1,1)", "rot z axial", "tiny translation"], "nestings": ["alone", "base > w > tool"]}));
     // LinearAxis / Gantry
     let ds = [0.0, 0.5, -1.25, 7.0];
     for (ri, p) in robots.iter().enumerate() {
@@ -304,7 +341,7 @@ pub fn run(ctx: &Ctx) -> Report {
         "breadth-first enumeration of every wrapper sequence of length 1..3 over {{tool, base, frame}} x {} isometries ({} stacks) x robots x joint vectors; \
          in every stack: forward and link poses against the composed reference, singularity/constraints delegation, and all four inverse entry points \
          (5-DOF ones on stacks whose tools/frames are axial): answers map back onto the request, continuation answers are nearest representatives in \
-         closeness order, 5-DOF answers carry the caller's / previous J6 bit-equal; LinearAxis (axes 0..2) and Gantry forward; signature = (stack shape, answers)",
+         closeness order, 5-DOF answers carry the caller's / previous J6 bit-equal; LinearAxis (axes 0..2) and Gantry forward; threshold sweep: each wrapper kind with a rotation / translation of every ladder magnitude, alone and nested; signature = (stack shape, answers)",
         iso_subset.len(),
         stacks.len()
     );
